@@ -127,14 +127,18 @@ class KeyHandler(HTMLHandlerBase):
                 "error": f'CSRF failure: {err}'
             }
         if result['error'] is None:
-            kid = models.KeyMaterial(kid)
-            computed = False
-            if key:
-                key = models.KeyMaterial(key)
-            else:
-                key = models.KeyMaterial(
-                    raw=PlayReady.generate_content_key(kid.raw))
-                computed = True
+            try:
+                kid = models.KeyMaterial(kid)
+                computed = False
+                if key:
+                    key = models.KeyMaterial(key)
+                else:
+                    key = models.KeyMaterial(
+                        raw=PlayReady.generate_content_key(kid.raw))
+                    computed = True
+            except (ValueError) as err:
+                result['error'] = f'Invalid KID or key: {err}'
+        if result['error'] is None:
             keypair = models.Key.get(hkid=kid.hex)
             if keypair:
                 result['error'] = f"Duplicate KID {kid.hex}"
